@@ -18,14 +18,14 @@ def sched_graph(res, ns, nc, capmod):
     ids = {}
     states = []
     for st in res.lines.get("STATE", []):
-        k = json.dumps(st["key"])
+        k = json.dumps(st["key"], sort_keys=True)
         if k not in ids:
             ids[k] = len(states)
             states.append({"obs": st["obs"], "quiet": st["quiet"]})
     edges = []
     init = None
     for e in res.lines.get("EDGE", []):
-        f, t = ids.get(json.dumps(e["from"])), ids.get(json.dumps(e["to"]))
+        f, t = ids.get(json.dumps(e["from"], sort_keys=True)), ids.get(json.dumps(e["to"], sort_keys=True))
         if f is None or t is None:
             raise InfraError("edge refers to a state that was not printed")
         edges.append([f, t, e["act"]["op"], e["act"]["p"]])
